@@ -390,9 +390,11 @@ func TestVerifC19User(t *testing.T) {
 // the repository's schedule points user.closesession.unlocked / panel.terminate.closed (internal/verifhook), and
 // their release - while every live session carries backlogged traffic both ways on the bubble's virtual clock.
 // Decided: (i) at every quiescent point all live sessions of the user carry ONE valve object
-// (key shared-allowance:two-valves), (ii) the bytes of all sessions together, over any interval, stay within
-// rate*t + burst, plus one burst for every (re-)activation of the user inside the interval: a user record that is
-// made anew starts with full buckets on the tree under test (keys tx-exceeds:across-lifecycle / rx-...).
+// (key shared-allowance:two-valves), (ii) the bytes of all sessions together, over any interval, stay within the
+// literal rate*t + burst (+1%). An excess that is fully explained by fresh buckets on re-activation - at most one
+// burst per re-activation of the user inside the interval, one valve at every instant - is the known defect D18 and
+// is reported under tx-/rx-exceeds:burst-refill-on-reactivation; anything beyond that under
+// tx-/rx-exceeds:across-lifecycle.
 
 type c19LEv struct {
 	A     string `json:"a"`
@@ -415,10 +417,19 @@ type c19LStep struct {
 }
 
 type c19LBeh struct {
-	Bad   bool       `json:"bad"`
-	Mode  string     `json:"mode"` // strict: the model of the tree under test; hypo: schedule of a named deviation
-	Gates []string   `json:"gates"`
-	Steps []c19LStep `json:"steps"`
+	Bad    bool       `json:"bad"`
+	Mode   string     `json:"mode"` // strict: the model of the tree under test; hypo: schedule of a named deviation
+	Name   string     `json:"name,omitempty"`
+	Gates  []string   `json:"gates"`
+	StepMs int        `json:"step_ms,omitempty"` // virtual time between the steps (default 1000)
+	TailMs int        `json:"tail_ms,omitempty"` // plain backlog after the last step (default 6000)
+	Steps  []c19LStep `json:"steps"`
+}
+
+type c19LFinding struct {
+	Key  string         `json:"key"`
+	What string         `json:"what"`
+	Info map[string]any `json:"info,omitempty"`
 }
 
 const (
@@ -445,6 +456,7 @@ type c19LResult struct {
 	Table    []string
 	Evs      []c19UEv
 	Records  int
+	Refill   []c19LFinding // literal bound exceeded, explained by fresh buckets on re-activation (D18)
 	// a hypothesis schedule was cut short because its next handshake would find, on this tree, a record in the panel
 	// on which closeAllSessions has already run: the known lookup gap (D9, C15/C17), not a C19 matter
 	Abandoned bool
@@ -648,6 +660,7 @@ func c19LifeRun(b *c19LBeh) (out c19LResult) {
 				continue
 			}
 			user := records[ev.Rec-1]
+			rec.add("close", "", int(ev.Sid))
 			a := &c19LActor{resume: make(chan struct{})}
 			actors[ev.P] = a
 			actorRec[ev.P] = user
@@ -690,7 +703,11 @@ func c19LifeRun(b *c19LBeh) (out c19LResult) {
 			out.Diverged = fmt.Sprintf("after step %d: live sessions %v on %d valve(s), the model has %v on %d", si, live, valves, st.Obs.Live, st.Obs.Valves)
 			break
 		}
-		time.Sleep(time.Second) // traffic between the steps
+		stepMs := b.StepMs
+		if stepMs == 0 {
+			stepMs = 1000
+		}
+		time.Sleep(time.Duration(stepMs) * time.Millisecond) // traffic between the steps
 	}
 	// let parked goroutines finish in index order, then a stretch of plain backlog
 	for p := 1; p <= 8; p++ {
@@ -701,7 +718,11 @@ func c19LifeRun(b *c19LBeh) (out c19LResult) {
 			}
 		}
 	}
-	time.Sleep(6 * time.Second)
+	tailMs := b.TailMs
+	if tailMs == 0 {
+		tailMs = 6000
+	}
+	time.Sleep(time.Duration(tailMs) * time.Millisecond)
 	stop.Store(true)
 	for writers.Load() > 0 {
 		time.Sleep(10 * time.Millisecond)
@@ -725,15 +746,25 @@ func c19LifeRun(b *c19LBeh) (out c19LResult) {
 	return
 }
 
-// c19LCheck: all pairs of events of one direction; an interval may carry rate*t + burst*1.01 + one burst per
-// activation of the user recorded inside it.
-func c19LCheck(dir string, rate int64, evs []c19UEv) (n int, what string) {
+// c19LCheck: all pairs of events of one direction against the LITERAL bound rate*t + burst*1.01. Returned: the worst
+// interval whose excess fresh buckets cannot explain (more than one burst per re-activation recorded inside it), and
+// the worst one they can.
+func c19LCheck(dir string, rate int64, evs []c19UEv) (beyond, refill *c19LFinding) {
 	var t, pre, acts []int64
 	pre = append(pre, 0)
 	var a int64
+	var history []string
 	for _, e := range evs {
-		if e.kind == "activate" {
+		switch e.kind {
+		case "activate":
 			a++
+			if a == 1 {
+				history = append(history, fmt.Sprintf("first handshake at t=%.1f ms (full buckets)", float64(e.ns)/1e6))
+			} else {
+				history = append(history, fmt.Sprintf("reconnect at t=%.1f ms -> new user record with FRESH full buckets", float64(e.ns)/1e6))
+			}
+		case "close":
+			history = append(history, fmt.Sprintf("session %d closed at t=%.1f ms -> no session left, record terminated", e.n, float64(e.ns)/1e6))
 		}
 		if e.dir == dir && e.kind == "pass" {
 			t = append(t, e.ns)
@@ -741,42 +772,75 @@ func c19LCheck(dir string, rate int64, evs []c19UEv) (n int, what string) {
 			acts = append(acts, a)
 		}
 	}
-	n = len(t)
+	n := len(t)
+	lit := rate * 101 / 100 * 1e9 // burst + 1%, in byte*ns
+	var wb, wr int64              // worst excesses over the respective allowance
+	mk := func(i, j int, key string) *c19LFinding {
+		got, dt, k := pre[j+1]-pre[i], t[j]-t[i], acts[j]-acts[i]
+		return &c19LFinding{Key: dir + "-exceeds:" + key,
+			What: fmt.Sprintf("%s, user c19-life: %s; %d bytes passed in [%.1f ms, %.1f ms] over all sessions the user had in that time, allowed %d = %d (rate %d B/s x t) + %d (one burst, +1%%); %d re-activation(s) inside the interval would explain up to %d more",
+				dir, fmt.Sprint(history), got, float64(t[i])/1e6, float64(t[j])/1e6, rate*dt/1e9+rate*101/100, rate*dt/1e9, rate, rate*101/100, k, k*rate),
+			Info: map[string]any{"dir": dir, "bytes": got, "from_ms": float64(t[i]) / 1e6, "to_ms": float64(t[j]) / 1e6, "allowed": rate*dt/1e9 + rate*101/100,
+				"reactivations_inside": k, "rate": rate, "history": history}}
+	}
 	for i := 0; i < n; i++ {
 		for j := i; j < n; j++ {
-			allow := rate*(t[j]-t[i]) + (rate*101/100+rate*(acts[j]-acts[i]))*1e9
-			if got := (pre[j+1] - pre[i]) * 1e9; got > allow {
-				return n, fmt.Sprintf("%s: %d bytes passed between t=%.3f ms and t=%.3f ms over all sessions the user had in that time; %d B/s allow %d (rate*t) + %d (burst, +1%%) + %d (one burst per activation of the user in the interval: %d)",
-					dir, got/1e9, float64(t[i])/1e6, float64(t[j])/1e6, rate, rate*(t[j]-t[i])/1e9, rate*101/100, rate*(acts[j]-acts[i]), acts[j]-acts[i])
+			ex := (pre[j+1]-pre[i])*1e9 - rate*(t[j]-t[i]) - lit
+			if ex <= 0 {
+				continue
+			}
+			if credit := rate * (acts[j] - acts[i]) * 1e9; ex > credit {
+				if ex-credit > wb {
+					wb, beyond = ex-credit, mk(i, j, "across-lifecycle")
+				}
+			} else if ex > wr {
+				wr, refill = ex, mk(i, j, "burst-refill-on-reactivation")
 			}
 		}
 	}
-	return n, ""
+	return
 }
 
 func c19LEvaluate(t *testing.T, b *c19LBeh) (out c19LResult) {
 	synctest.Test(t, func(t *testing.T) { out = c19LifeRun(b) })
-	if _, w := c19LCheck("tx", c19LDown, out.Evs); w != "" && out.Key == "" {
-		out.Key, out.What = "tx-exceeds:across-lifecycle", w
-	}
-	if _, w := c19LCheck("rx", c19LUp, out.Evs); w != "" && out.Key == "" {
-		out.Key, out.What = "rx-exceeds:across-lifecycle", w
+	for _, d := range []struct {
+		dir  string
+		rate int64
+	}{{"tx", c19LDown}, {"rx", c19LUp}} {
+		beyond, refill := c19LCheck(d.dir, d.rate, out.Evs)
+		if beyond != nil && out.Key == "" {
+			out.Key, out.What = beyond.Key, beyond.What
+		}
+		if refill != nil {
+			if out.Key == "shared-allowance:two-valves" {
+				continue // two valves were alive: fresh buckets are not the (whole) explanation
+			}
+			out.Refill = append(out.Refill, *refill)
+		}
 	}
 	return
 }
 
 func c19LifeReplayAll(t *testing.T, res *kit.Result, tw *kit.TraceWriter, path string) error {
-	idx := 0
+	idx, serious := 0, 0
 	return kit.ReadLines(path, func(line []byte) error {
 		var b c19LBeh
 		if err := json.Unmarshal(line, &b); err != nil {
 			return err
 		}
 		idx++
-		if res.NumViolations() > 12 {
+		if serious > 12 {
 			return nil
 		}
 		out := c19LEvaluate(t, &b)
+		for _, f := range out.Refill { // known defect D18: identified, never silently forgiven
+			res.Violate(f.Key, f.What, map[string]any{"life_behaviour": b, "finding": f.Info})
+			res.Stat("life_refill_"+f.Key[:2], 1)
+			if b.Name != "" {
+				res.Sample(map[string]any{"named_life_scenario": b.Name, "finding": f}, 16)
+				res.Stat("named:"+b.Name+":"+f.Key, 1)
+			}
+		}
 		churn := false
 		for _, st := range b.Steps {
 			churn = churn || st.Ev.A != "hs"
@@ -788,6 +852,7 @@ func c19LifeReplayAll(t *testing.T, res *kit.Result, tw *kit.TraceWriter, path s
 			res.Stat("life_reactivated", 1)
 		}
 		if out.Key != "" {
+			serious++
 			res.Violate(out.Key, out.What, map[string]any{"life_behaviour": b, "table": out.Table})
 			if b.Mode == "hypo" {
 				res.Stat("life_hypothesis_followed", 1)
@@ -810,6 +875,9 @@ func c19LifeReplayAll(t *testing.T, res *kit.Result, tw *kit.TraceWriter, path s
 			"tx": map[string]any{"rpm": c19LDown / 1000, "burst": c19LDown, "relax": 0, "maxmsg": c19LDown},
 			"rx": map[string]any{"rpm": c19LUp / 1000, "burst": c19LUp, "relax": 0, "maxmsg": c19LUp}})
 		for _, e := range out.Evs {
+			if e.kind == "close" {
+				continue // history for the driver's report only
+			}
 			m := map[string]any{"ev": e.kind, "t": e.ns / 1e6}
 			if e.kind == "pass" {
 				m["dir"], m["n"] = e.dir, e.n
@@ -837,5 +905,10 @@ func c19LifeReplayFile(t *testing.T, path string) {
 	for _, l := range out.Table {
 		fmt.Println(l)
 	}
-	fmt.Printf("REPLAY-RESULT key=%q what=%q diverged=%q\n", out.Key, out.What, out.Diverged)
+	keys := []string{}
+	for _, f := range out.Refill {
+		fmt.Printf("FINDING %s: %s\n", f.Key, f.What)
+		keys = append(keys, f.Key)
+	}
+	fmt.Printf("REPLAY-RESULT key=%q what=%q known_refill_keys=%q diverged=%q\n", out.Key, out.What, keys, out.Diverged)
 }
